@@ -32,7 +32,7 @@ class Prop(BaseProp):
             "f(a,b) vs f([a,b]) vs f(L, indices=[i,j]); f(*sub) vs f(sub) vs f(L, indices=idx) vs f_multi(L, indices=idx) "
             "for the four profiles, four scalars, directionality values and four matrices - all identities between real "
             "executions. distinct = (interleaving word, keyword regime, index selection)")
-    budget = {"quick": 500, "thorough": 10000}
+    budget = {"quick": 500, "thorough": 50000}
     must_see = ["indices_not_sorted", "indices_skip_0", "indices_size_2", "indices_size_N", "indices_non_prefix",
                 "interval_given", "max_tau_positive", "mrts_positive", "mrts_auto", "RI_true", "three_arg_form"] + \
                ["m:" + n for n, _ in PROFILES] + ["m:" + n for n, _, _ in SCALARS] + ["m:" + n for n, _, _ in MATRICES] + ["m:spike_directionality_values"]
